@@ -14,6 +14,7 @@ mod apply_domain;
 mod status_writes;
 mod lock_sites;
 mod pure_fns;
+mod panic_sites;
 
 fn main() {
     let args: Vec<String> = std::env::args().collect();
@@ -32,6 +33,7 @@ fn main() {
         "apply_domain" => apply_domain::run(&repo),
         "status_writes" => status_writes::run(&repo),
         "lock_sites" => lock_sites::run(&repo),
+        "panic_sites" => panic_sites::run(&repo),
         t if t == "pure_fns" || t.starts_with("pure_fns:") => pure_fns::run(&repo, t),
         t => {
             eprintln!("unknown table {t}");
